@@ -102,6 +102,19 @@ func programs(thorough bool, emit func(p program)) {
 			emit(program{conf: header + fmt.Sprintf("SecRule %s \"@rx .\" \"id:1,phase:2,pass,log,chain\"\n  %s\n", t1, link)})
 		}
 	}
+	// chains whose inner links only gate the chain (no actions of their own) and match several values under different
+	// names: the values each link reports, what MATCHED_VARS(_NAMES) holds for the next link and the counters must not
+	// depend on which value an iteration meets first
+	for _, t1 := range []string{"ARGS_GET", "ARGS", "REQUEST_COOKIES"} {
+		for _, last := range []string{
+			"SecRule MATCHED_VARS_NAMES \"@rx :b$\" \"setvar:tx.c=+1\"",
+			"SecRule MATCHED_VARS \"@rx ^[x1]\" \"setvar:tx.c=+1\"",
+			"SecRule &MATCHED_VARS \"@ge 3\" \"setvar:tx.c=+1\"",
+		} {
+			emit(program{conf: header + fmt.Sprintf("SecRule %s \"@rx .\" \"id:1,phase:2,pass,log,chain\"\n  SecRule %s \"@rx .\" \"chain\"\n  %s\nSecRule TX:c \"@ge 2\" \"id:2,phase:2,deny,status:403,log\"\n", t1, t1, last)})
+		}
+		emit(program{conf: header + fmt.Sprintf("SecRule %s \"@rx .\" \"id:1,phase:2,pass,log,chain\"\n  SecRule %s \"@rx ^[x1]\" \"t:none\"\n", t1, t1)})
+	}
 	// argument limit: which arguments survive must not depend on order
 	for _, t1 := range []string{"ARGS_GET", "ARGS"} {
 		for _, lim := range []string{"2", "3", "4"} {
@@ -220,7 +233,7 @@ func describe(m map[string][]int) string {
 
 // classify derives a root-cause signature from the scenario's features.
 func classify(sc scen.Scenario, m map[string][]int) string {
-	if strings.Contains(sc.Conf, "SecRule MATCHED_VAR") {
+	if strings.Contains(sc.Conf, "SecRule MATCHED_VAR \"") || strings.Contains(sc.Conf, "SecRule MATCHED_VAR_NAME \"") {
 		return "chain-on-MATCHED_VAR-depends-on-which-value-matched-last"
 	}
 	return "unclassified:" + sc.Conf + "|" + sc.Req.URI + "|" + sc.Req.Body
